@@ -31,6 +31,14 @@ type PtrEv struct {
 }
 type SliceEv []uint64
 
+// ChanEv has no JSON encoding (channel field): on a persistent bus its persistence fails, the
+// publish must still be delivered.
+type ChanEv struct {
+	ID uint64
+	S  string
+	C  chan int
+}
+
 // HandlerCB is what a subscribed handler calls: ctx is nil for plain handlers.
 type HandlerCB func(ctx context.Context, id uint64, payloadOK bool)
 
@@ -248,6 +256,8 @@ func Drivers() []Driver {
 				}
 				return e[0], e[1] == e[0]^0xabcdef
 			}),
+		newDrv[ChanEv]("ChanEv(unencodable)", func(id uint64) ChanEv { return ChanEv{ID: id, S: payload(id), C: make(chan int)} },
+			func(e ChanEv) (uint64, bool) { return e.ID, e.S == payload(e.ID) && e.C != nil }),
 	)
 	return ds
 }
